@@ -95,6 +95,12 @@ class Model:
         reg('/', 'fn', 'fn')
         for b in BIN:
             reg('/', b, 'fn')
+        # handlers for unrelated events, next to the class-based namespace
+        # and on the catch-all namespace: they must not change who is
+        # responsible for the events below, nor their arguments
+        if self.layout == 1:
+            reg('/x', 'unrelated', 'fn')
+            reg('*', 'unrelated2', 'fn')
         if self.layout == 1:
             base = socketio.AsyncNamespace if is_async else \
                 socketio.Namespace
@@ -162,6 +168,7 @@ class Model:
                     ops.append(('connect', s, ns))
                 else:
                     ops.append(('cdisc', s, ns))
+                    ops.append(('ev+cdisc', s, ns))
                     for b in ('b1', 'b2'):
                         ops.append(('hdr', s, ns, b, 1, 7))
                     ops.append(('hdr', s, ns, 'b2', 0, 9))
@@ -216,6 +223,34 @@ class Model:
         elif kind == 'cdisc':
             _, s, ns = op
             w.recv_packet(w.slot[s], 1, ns)
+            w.conn.pop((s, ns), None)
+        elif kind == 'ev+cdisc':
+            # an event immediately followed by the client's DISCONNECT: the
+            # client was connected when the event arrived, so it is handled
+            # and acknowledged even if the handler task only runs afterwards
+            _, s, ns = op
+            t = w.slot[s]
+            name = 'fn' if (ns == '/' or self.layout == 1) else 'zz'
+            w.script['ret'] = 'late'
+            ev = w.encode(2, ns, 9, [name, 1])[0]
+            dis = w.encode(1, ns)[0]
+            from engineio import packet as eio_packet
+            sock = w.transports[t]
+            if w.is_async:
+                async def both():
+                    await sock.receive(eio_packet.Packet(
+                        eio_packet.MESSAGE, ev))
+                    await sock.receive(eio_packet.Packet(
+                        eio_packet.MESSAGE, dis))
+                w.run(both)
+            else:
+                w.hold_tasks = True
+                w.recv(t, ev)
+                w.recv(t, dis)
+                w.hold_tasks = False
+                w.run_tasks()
+            self._expect_dispatch(w, s, ns, name, 9, [1], 'late',
+                                  f'{op}: event then DISCONNECT')
             w.conn.pop((s, ns), None)
         elif kind == 'loss':
             _, s = op
